@@ -228,7 +228,11 @@ func init() {
 		Name: "hostile-paths-x-panel",
 		N:    qt(30000, 400000),
 		Run: func(c *mon.Ctx, i int) {
-			text := hostileDiffText(c.R, 1+i%3)
+			text := hostileDiffText(c.R, i%4) // path lengths 0 (the root) to 3
+			if i%9 == 0 {
+				// two hunks: whatever the first one is, the reader flushes it when the second begins
+				text += hostileDiffText(c.R, (i/9)%3)
+			}
 			c.Input("diff", text)
 			var d jd.Diff
 			var err error
